@@ -227,9 +227,13 @@ def run_unit(tpl_path, rlimit=None, keep_dir=None, extra_args=(), timeout=900):
 if __name__ == "__main__":
     import sys
     r = run_unit(sys.argv[1], keep_dir=(sys.argv[2] if len(sys.argv) > 2 else None))
-    r.pop("gen_src", None)
-    r.pop("raw_stderr", None)
+    print("status=%s verified=%s errors=%s solver_ms=%s wall=%s" % (r["status"], r.get("verified"), r.get("errors"), r.get("solver_ms"), r.get("wall_s")))
+    for t in r["tool_errors"]:
+        print("TOOL:", t)
     for f_ in r["failures"]:
-        f_["record"] = f_["record"] and f_["record"]["item"]
-    r.pop("records", None)
-    print(json.dumps(r, indent=1)[:6000])
+        print("FAIL: %s [%s] line %s: %s" % (f_["fn"], f_["kind"], f_["line"], f_["clause"][:200]))
+    print("canary passed unexpectedly:", r.get("canary", {}).get("passed_unexpectedly"))
+    slow = sorted(((v["time_ms"] or 0, k) for k, v in r["functions"].items()), reverse=True)[:5]
+    print("slowest:", slow)
+    if "-v" in sys.argv:
+        print(r.get("raw_stderr", "")[-4000:])
